@@ -328,6 +328,21 @@ fn check_cont(run: &Run, c: &Cont) {
         let w = hi - lo;
         outside.extend([up(hi), hi + 1e-9 * w, hi + 0.5 * w, hi + 10.0 * w, hi + 1e6 * w.max(1.0), 1e300]);
     }
+    // towards the finite ends of the support on a geometric lattice (distance m·10^-k, k = 1..300)
+    {
+        let w = if lo.is_finite() && hi.is_finite() { hi - lo } else { 1.0 };
+        for k in (1..=24).chain([30, 40, 60, 100, 150, 200, 300]) {
+            for m in [1.0, 3.0] {
+                let d = m * 10f64.powi(-k) * w;
+                if lo.is_finite() && lo + d > lo && lo + d < hi {
+                    pts.push(lo + d);
+                }
+                if hi.is_finite() && hi - d < hi && hi - d > lo {
+                    pts.push(hi - d);
+                }
+            }
+        }
+    }
     // far tails: up to 10^6 scale units from the centre, inside the support
     {
         let centre = if c.ref_mean_var.0.is_finite() { c.ref_mean_var.0 } else { c.grid[c.grid.len() / 2] };
